@@ -123,6 +123,7 @@ type fx struct {
 	curCallee   *ssa.CallCommon
 	keepAllRegs []region
 	keepAllInit  bool
+	assertSeen       map[int]bool // assert clauses whose call site / return exists in the function
 	ensuresEvaluated map[int]bool // ensures clauses evaluated at some return (a clause over locals in scope at no return is vacuous)
 	pcOverride   string // guard used by assume instead of curPC (lazily resolved frames)
 	pcOverrideOn bool
